@@ -127,6 +127,10 @@ CAUSE_TYPES = (
     lambda: (Ty('decimal'), 'x', lambda: decimal.Decimal('x')),
     lambda: (Ty('date'), '2023-13-45', lambda: datetime.date.fromisoformat('2023-13-45')),
     lambda: (Ty('pattern', of='str'), '(', lambda: re.compile('(')),
+    # (not every failure of the pattern compiler is an re.error)
+    lambda: (Ty('pattern', of='str'), 'a{4294967296}', lambda: re.compile('a{4294967296}')),
+    lambda: (Ty('pattern', of='bytes'), b'(?P<n>a)(?P<n>b)', lambda: re.compile(b'(?P<n>a)(?P<n>b)')),
+    lambda: (Ty('decimal'), 'NaN1x', lambda: decimal.Decimal('NaN1x')),
     lambda: (Ty('time'), '25:00', lambda: datetime.time.fromisoformat('25:00')),
     lambda: (Ty('float'), 10 ** 400, lambda: float(10 ** 400)),
     lambda: (Ty('cond', [Ty('int')], conds=[C.with_names({'op': 'user', 'fn': 'boom'})]), 5, lambda: C.USER_FNS['boom'](5)),
